@@ -9,7 +9,7 @@ one() {
   d=$1; n=$(basename $d); p=$(python3 -c "import json;print(json.load(open('$d/meta.json'))['property'])")
   wt=/tmp/seedsweep/wt-$n
   rm -rf $wt; git -C /repo worktree add -q --detach $wt HEAD 2>/dev/null || { echo "ERR $n worktree"; return; }
-  if ! git -C $wt apply $d/patch.diff 2>/dev/null; then echo "NOAPPLY $p $n"; git -C /repo worktree remove --force $wt; return; fi
+  if ! git -C $wt apply /verif/$d/patch.diff 2>/dev/null; then echo "NOAPPLY $p $n"; git -C /repo worktree remove --force $wt; return; fi
   out=$(tools/seedtry.sh $wt $p 2>&1 | tail -1)
   case "$out" in FAIL*) echo "CAUGHT $p $n";; PASS*) echo "MISSED $p $n";; *) echo "BROKEN $p $n :: $out";; esac
   git -C /repo worktree remove --force $wt
